@@ -28,12 +28,31 @@ def gen_case(rng, i):
         a["dtype"] = dt
         for t in a["terms"]:
             t[1] = [(0 if x == 0 else (top - int(rng.integers(0, 40))) // (1 if rng.random() < .5 else 2)) if isinstance(x, int) else x for x in t[1]]
+    if len(a["names"]) >= 2 and rng.random() < .15:
+        # indeterminates declared in another order than by index (as numpoly.symbols("q3 q1") gives): gradient and
+        # Hessian follow the polynomial's own order, in rows and in columns
+        perm = [int(x) for x in rng.permutation(len(a["names"]))]
+        if perm == sorted(perm):
+            perm = perm[::-1]
+        a["names"] = [a["names"][k] for k in perm]
+        a["terms"] = [[[t[0][k] for k in perm], t[1]] for t in a["terms"]]
+        a["unsorted_names"] = True
+    if op == "derivative" and rng.random() < .06:
+        # one indeterminate to a high power, differentiated many times in a single call: the falling factorial leaves 32 bits
+        e = int(gen.choice(rng, [20, 25, 33, 70000]))
+        nv = 2 if e == 70000 else int(rng.integers(7, 11))
+        a = {"names": [0, 1], "shape": [], "dtype": "int64", "kind": "int", "terms": [[[e, 0], [1]], [[2, 1], [3]], [[0, 0], [5]]]}
+        return {"id": i, "kind": "c06", "op": op, "a": a, "vars": [0] * nv, "how": [gen.choice(rng, ["name", "position"]) for _ in range(nv)]}
     c = {"id": i, "kind": "c06", "op": op, "a": a}
     if op == "derivative":
         k = len(a["names"])
         nv = 1 if rng.random() < .7 else 2
         c["vars"] = [int(rng.integers(k)) for _ in range(nv)]
         c["how"] = [gen.choice(rng, ["name", "position", "poly", "vector-element"]) for _ in range(nv)]
+        if a.get("unsorted_names") and rng.random() < .7:
+            # successive positions on unsorted names: each one means the input's own name order
+            c["vars"] = [int(rng.integers(k)) for _ in range(2)]
+            c["how"] = ["position", gen.choice(rng, ["position", "position", "name"])]
     return c
 
 
@@ -50,8 +69,17 @@ def driver_case(c, opts):
     a = {k: c["a"][k] for k in ("names", "shape", "terms")}
     d = {"id": c["id"], "a": a, "opts": opts}
     if c["op"] == "derivative":
-        return dict(d, op="deriv", vars=c["vars"])
+        # the model reads every position against the names of the (re-aligned, hence index-sorted) intermediate result;
+        # the library reads all of them against the input's names (as repaired, D37): translate from the second on
+        names = c["a"]["names"]
+        vs = [c["vars"][0]] + [sorted(names).index(names[v]) for v in c["vars"][1:]]
+        return dict(d, op="deriv", vars=vs)
     return dict(d, op=c["op"])
+
+
+# (history) the Lean model of `hessian` ordered its rows by sorted names - the behaviour before the repair D35 - until
+# Np/Model/Grad.lean followed the repaired library; the switch stays so that a replay on an old model says what it skips
+MODEL_HESSIAN_SORTED_ROWS = False
 
 
 def designate(p, j, how):
@@ -100,7 +128,9 @@ def check(ctx, c, opts, model, monitor=None):
     ctx.count(f"op={c['op']}")
     want, wshape = exact(c)
     if model.get("status") == "ok":
-        if den_of_struct(model) != want or model["shape"] != wshape:
+        if (den_of_struct(model) != want or model["shape"] != wshape) and MODEL_HESSIAN_SORTED_ROWS and c["op"] == "hessian" and c["a"].get("unsorted_names"):
+            ctx.count("model-skipped:hessian-unsorted-names")
+        elif den_of_struct(model) != want or model["shape"] != wshape:
             raise RuntimeError(f"Lean model and exact dictionary arithmetic disagree on case {c['id']} {opts}")
     if want and len(c["a"]["terms"]) >= 2:
         ctx.nontrivial_add((c["id"],))
